@@ -416,7 +416,8 @@ class graph():
                 scale = scale0 + scale1
             else:
                 scale = None
-        return graph(coords=new_coords, field_names=self.field_names,
+        # error fields are ignored
+        return graph(coords=new_coords, field_names=self.field_names[:dim],
                      scale=scale)
 
         # for ind, arr in enumerate(self.coords):
